@@ -22,10 +22,25 @@ RULE = ("k-centers only (function and estimator form): 2..12 distinct integer po
         "the radii the greedy run attains, cold start and warm start from 1..3 frames, with and without the triangle shortcut. "
         "Oracle: independent replay of farthest-first with first-maximum ties on the implementation's own distance matrix, "
         "exact stop rule, plain == shortcut, brute-force optimum over all k-subsets for the 2-approximation. "
+        "Warm starts from 1..3 supplied centres that are NOT frames of the data (quarter-grid points for the library metrics, "
+        "further points of the table for table metrics on ndarray / md.Trajectory data; every supplied centre attracts a frame): "
+        "the distance matrix, replay and model cover data + supplied points (virtual frames n..), the first centre indices must be "
+        "the first nearest frame of each supplied centre, each function-form case is run with both settings of the shortcut on "
+        "the same arguments and the two results must be identical; the 2-approximation is not demanded there; a few of them on a line, built so that a frame lies between the supplied "
+        "centre and the new centre where the bound of the shortcut decides. The shortcut on md.Trajectory data (frame centres) with "
+        "and without a buffer-reusing metric. "
         "non-trivial := n >= 4 and >= 2 centres"
-        " Input-class axes, each forced in every run for every entry point (cluster_common.gen_axis_streams): memory layout of the data (column subset / strided rows / Fortran / transposed / negative stride / strided columns / read-only; same values, the metric is evaluated on a fresh contiguous copy); container of the warm-start centres (2-D array or md.Trajectory slice, Python list of frames, the .centers list of an earlier result) with argument-unchanged checks on the list and the earlier result; a metric that returns its result in one reused float64 buffer; estimator-reuse histories (constructed with other parameters, optional earlier fit on the same or other data, parameters changed through set_params / attribute assignment, second fit) compared with the function form called with the current parameters; tiny length scales (x 2^-14..2^-20) incl. k-medoids started from labels+distances without centre indices. Every run of the real code is bounded by a watchdog (10 s; key does-not-terminate).")
+        " Input-class axes, each forced in every run for every entry point (cluster_common.gen_axis_streams): memory layout of the data (column subset / strided rows / Fortran / transposed / negative stride / strided columns / read-only; same values, the metric is evaluated on a fresh contiguous copy); container of the warm-start centres (2-D array or md.Trajectory slice, Python list of frames, the .centers list of an earlier result) with argument-unchanged checks on the list and the earlier result; a metric that returns its result in one reused float64 buffer; estimator-reuse histories (constructed with other parameters, optional earlier fit on the same or other data, parameters changed through set_params / attribute assignment, second fit) compared with the function form called with the current parameters; tiny length scales (x 2^-14..2^-20) incl. k-medoids started from labels+distances without centre indices. Every run of the real code is bounded by a watchdog (10 s; key does-not-terminate)."
+        " Estimator attributes are read after every fit of a history (attributes / fit_predict / predict; warm start from est.centers_) and "
+        "compared with that fit's result_. One fixed witness of the known finding empty-initial-centre (a supplied centre that attracts no "
+        "frame) is replayed in every run, judged by the label / distance / centre-count / centre-list clauses, outside the Coq comparison.")
 SHARD = 60
 FINDING_F1 = "two-approx-with->=2-initial-centers"
+FINDING_EMPTY = "empty-initial-centre"
+# witness of the finding, replayed in every run: the supplied centre [100] attracts no frame
+EMPTY_INIT_WITNESS = {"kind": "kcenters", "metric": "euclidean", "X": [[0], [1], [2], [10], [11], [20]], "dtype": "float64", "n": 6,
+                      "vinit": 3, "init": [6, 7, 8], "init_pts": [[0.0], [100.0], [1.0]], "init_form": "array", "form": "func",
+                      "nclu": 4, "cutoff": None, "ti": False, "empty_init": True}
 
 
 def _greedy_radii(D, n, init):
@@ -58,7 +73,8 @@ def _pyD(c):
 def generate(rng, tier):
     N = 200 if tier == "quick" else 2500
     cases = [{"kind": "kcenters", "metric": "euclidean", "X": [[0], [1], [100]], "dtype": "float64", "n": 3,
-              "nclu": 2, "cutoff": None, "init": [0, 1], "form": "func", "ti": False}]   # finding F1, always replayed
+              "nclu": 2, "cutoff": None, "init": [0, 1], "form": "func", "ti": False},   # finding F1, always replayed
+             dict(EMPTY_INIT_WITNESS)]
     for _ in range(N):
         if rng.random() < 0.15:
             cases.append(cc.gen_ti_boundary(rng))
@@ -75,6 +91,41 @@ def generate(rng, tier):
                 c["cutoff"] = 0.5
         cases.append(c)
     cases += cc.gen_axis_streams(rng, ["kcenters", "traj"], reps=2 if tier == "quick" else 12)
+    # warm starts from supplied centres that are not frames of the data; every metric kind in every run, each
+    # function-form case is run with both settings of the shortcut on the same argument objects
+    for i in range(60 if tier == "quick" else 600):
+        kind = ["euclidean", "manhattan", "matrix", "traj", None][i % 5]
+        forced = i < 20 or i % 10 < 2
+        while True:
+            c = cc.gen_nonframe_warm(rng, kind=kind)
+            if not forced or c["metric"] != "matrix" or c["tri"]:
+                break
+        if forced:                      # the shortcut on a metric obeying the triangle inequality, in every run
+            c["ti"], c["form"] = True, "func"
+            if kind == "traj":          # one metric call per centre on md.Trajectory data: results must not be kept as views
+                c["buf"] = (i % 2 == 0)
+        cases.append(c)
+    # ... and constructed so that the bound of the shortcut decides (a frame between the supplied centre and the new one)
+    for i in range(8 if tier == "quick" else 80):
+        cases.append(cc.gen_nonframe_line(rng, ["euclidean", "manhattan", "matrix", "traj"][i % 4]))
+    # the shortcut on md.Trajectory data with centres that ARE frames (cold start / warm start from frames), with and
+    # without a buffer-reusing metric: the table of a non-frame case read as data only
+    for i in range(12 if tier == "quick" else 120):
+        while True:
+            v = cc.gen_nonframe_warm(rng, kind="traj")
+            if v["tri"]:
+                break
+        n = len(v["M"])
+        c = {"kind": "kcenters", "metric": "matrix", "M": v["M"], "tri": True, "traj": True, "n": n, "form": "func", "ti": True,
+             "init": None, "nclu": v["nclu"], "cutoff": v["cutoff"]}
+        if i % 3:
+            c["init"] = rng.sample(range(n), rng.randint(1, 3))
+            c["init_form"] = cc.gen_init_form(rng)
+            if c["nclu"] is not None:
+                c["nclu"] = min(n, len(c["init"]) + rng.randint(1, 3))
+        if i % 2:
+            c["buf"] = True
+        cases.append(c)
     return cases
 
 
@@ -117,6 +168,31 @@ def oracle(c, out):
     cutoff = F(c["cutoff"]) if c["cutoff"] is not None else F(0)
     ctrs, asg, dst, radii = _replay(D, n, c["nclu"], cutoff, c["init"])
     res = out["res"]
+    if c.get("vinit"):
+        # supplied centres that are not frames (virtual frames n.. of D): the implementation names each by the first
+        # frame of least distance among those it attracts (util.find_cluster_centers); the generator makes every
+        # supplied centre attract a frame -- anything else is outside this stream
+        k0 = c["vinit"]
+        _, a0, d0, _ = _replay(D, n, k0, cutoff, c["init"])      # n_clusters = k0: the state before the first iteration
+        if sorted(set(a0)) != list(range(k0)):
+            # some supplied centre attracts no frame (or duplicates another one): outside the generated stream; the one
+            # witness case is judged by the clauses on labels, distances, number of centres and the centre list,
+            # reported under the narrow key of the known finding
+            if not c.get("empty_init"):
+                return []
+            empty = [j for j in range(k0) if j not in set(a0)]
+            what = "supplied centres %s on data %s, n_clusters=%s: supplied centre(s) %s attract no frame; " % (
+                c.get("init_pts"), c.get("X"), c["nclu"], empty)
+            if (res["asg"], [F(v) for v in res["dst"]]) != (asg, dst):
+                fails.append((FINDING_EMPTY, what + "expected labels %s distances %s (labels index the centre list), got labels %s distances %s" % (
+                    asg, [float(v) for v in dst], res["asg"], [float(F(v)) for v in res["dst"]])))
+            if out.get("n_centers") is not None and out["n_centers"] != len(ctrs):
+                fails.append((FINDING_EMPTY, what + "%d centres came back, the stopping rule gives %d" % (out["n_centers"], len(ctrs))))
+            if out.get("centers_kept") is False:
+                fails.append((FINDING_EMPTY, what + "result.centers (%s entries) is not the supplied points followed by the frames at "
+                              "the new centre indices (%d indices)" % (out.get("n_centers"), len(res["ctrs"]))))
+            return fails
+        ctrs = [min((f for f in range(n) if a0[f] == j), key=lambda f: (d0[f], f)) for j in range(k0)] + ctrs[k0:]
     got = (res["ctrs"], res["asg"], [F(v) for v in res["dst"]])
     metric = cc.is_metric_space(D)
     if c.get("ti") and not metric:
@@ -134,15 +210,31 @@ def oracle(c, out):
         if k != exp_k:
             fails.append(("stop", "stopped with %d centres, exact rule gives %d" % (k, exp_k)))
     # 2-approximation against the brute-force optimum
-    if metric and n <= 9 and k <= n:
+    # (a supplied centre that is not a frame takes one of the k places without being one of the covered points:
+    #  the pigeonhole argument, and the clause, are about centres taken from the data -- not demanded there)
+    if metric and n <= 9 and k <= n and not c.get("vinit"):
         R = max(F(v) for v in res["dst"])
         best = min(max(min(D[s][f] for s in S) for f in range(n)) for S in itertools.combinations(range(n), k))
         if R > 2 * best:
             key = FINDING_F1 if (c["init"] and len(c["init"]) >= 2) else "two-approx"
             fails.append((key, "radius %s > 2 x optimum %s for k=%d" % (R, best, k)))
-    if not (c.get("ti") and not metric):
+    if c.get("vinit"):
+        if metric and out.get("other") is not None and out["other"] != res:
+            o = out["other"]
+            fails.append(("shortcut-differs", "initial centres that are not frames: use_triangle_inequality=%s gives centres %s "
+                          "labels %s distances %s, use_triangle_inequality=%s gives %s %s %s" % (
+                              bool(c.get("ti")), res["ctrs"], res["asg"], [float(F(v)) for v in res["dst"]],
+                              not c.get("ti"), o["ctrs"], o["asg"], [float(F(v)) for v in o["dst"]])))
+        if out.get("centers_kept") is False:
+            fails.append(("center-not-frame", "result.centers is not the supplied points followed by the frames at the new centre indices"))
+        if not out.get("X_unchanged", True):
+            fails.append(("input-modified", "the data array was modified"))
+        for msg in out.get("arg_problems", []):
+            fails.append(("input-modified", msg))
+    elif not (c.get("ti") and not metric):
         fails += cc.inv_failures(out)
     fails += cc.hist_failures(c, out)
+    fails += cc.attr_failures(out)
     return fails
 
 
@@ -160,9 +252,19 @@ def nontrivial(c, out):
 def tags(c, out):
     t = cc.common_tags(c, out)
     t.append("count" if c["cutoff"] is None else "radius" if c["nclu"] is None else "both")
+    if c.get("line"):
+        t.append("non-frame-init-bound-decides")
+    if c.get("empty_init"):
+        t.append("empty-initial-centre-witness")
+    if c.get("ti") and c.get("traj"):
+        t.append("ti-md-trajectory")
+        if c.get("buf"):
+            t.append("ti-md-trajectory-buffer-reusing-metric")
     return t
 
 
-ESSENTIAL_TAGS = ["init-array", "init-list", "init-result", "warm-init-md-trajectory", "non-contiguous-data", "buffer-reusing-metric",
+ESSENTIAL_TAGS = ["empty-initial-centre-witness", "init-estimator", "estimator-read-attrs-then-refit", "estimator-read-fit_predict-then-refit",
+                  "estimator-read-predict-then-refit", "non-frame-init-bound-decides", "ti-md-trajectory", "ti-md-trajectory-buffer-reusing-metric", "non-frame-init", "non-frame-init-ti", "non-frame-init-euclidean", "non-frame-init-manhattan", "non-frame-init-matrix",
+                  "non-frame-init-md-trajectory", "init-array", "init-list", "init-result", "warm-init-md-trajectory", "non-contiguous-data", "buffer-reusing-metric",
                   "estimator-history", "estimator-refit-same", "estimator-refit-other",
                   "md-trajectory-input", "near-half-boundary", "count", "radius", "both", "warm-init", "ti", "estimator-form", "matrix", "euclidean", "manhattan"]
